@@ -272,6 +272,20 @@ func (c *EvalCtx) eval(e *Expr) TV {
 			}
 		}
 		r := x.binop(op, ta, tbt, t, t, "", nil)
+		if x.bv && (op == token.ADD || op == token.SUB) {
+			// contract arithmetic on signed 64-bit values is meant mathematically: assume it does not wrap
+			if w, sg, ok := intInfo(t); ok && sg && w == 64 {
+				if rt2, ok := r.(*Term); ok && !rt2.IsConst() {
+					zero := tb.BVC(bigZero, 64)
+					an, bn, rn := tb.BVCmp("bvslt", ta, zero), tb.BVCmp("bvslt", tbt, zero), tb.BVCmp("bvslt", rt2, zero)
+					if op == token.ADD {
+						c.fact(tb.Not(tb.Or(tb.And(tb.Not(an), tb.Not(bn), rn), tb.And(an, bn, tb.Not(rn)))))
+					} else {
+						c.fact(tb.Not(tb.Or(tb.And(tb.Not(an), bn, rn), tb.And(an, tb.Not(bn), tb.Not(rn)))))
+					}
+				}
+			}
+		}
 		rt := t
 		switch op {
 		case token.EQL, token.NEQ, token.LSS, token.LEQ, token.GTR, token.GEQ:
